@@ -84,6 +84,8 @@ theorem takeWhile_rep (c : Char) (n : Nat) (rest : Str) (h : rest.head? ≠ some
 def SufOK (c : Char) (suf : Str) : Prop :=
   suf.head? ≠ some c ∧ ∀ x ∈ suf, x ≠ '\r' ∧ x ≠ '\n'
 
+instance (c : Char) (suf : Str) : Decidable (SufOK c suf) := by unfold SufOK; infer_instance
+
 theorem parseDelimLine_rep (c : Char) (n : Nat) (suf : Str) (hn : 3 ≤ n) (hc : c ≠ '\n') (hs : SufOK c suf) :
     parseDelimLine (rep c n ++ (suf ++ ['\n'])) c = some (n, suf) := by
   unfold parseDelimLine
@@ -106,6 +108,8 @@ theorem parseDelimLine_rep (c : Char) (n : Nat) (suf : Str) (hn : 3 ≤ n) (hc :
 
 /-- A line that does not start with three or more `c`. -/
 def NoDelim (c : Char) (l : Str) : Prop := (l.takeWhile (· == c)).length < 3
+
+instance (c : Char) (l : Str) : Decidable (NoDelim c l) := by unfold NoDelim; infer_instance
 
 theorem parseDelimLine_noDelim {c : Char} {l : Str} (h : NoDelim c l) : parseDelimLine l c = none := by
   unfold parseDelimLine NoDelim at *
